@@ -30,6 +30,8 @@ type Env struct {
 	calleeFn   *ssa.Function
 	finalCache map[string]envVar
 	cst        *State // state whose local cells are current (differs from st inside old())
+	freeBind   map[string]Val        // call-site env of a closure: captured variables by name
+	freeType   map[string]types.Type // their (pointer) types
 	oldEnv     *Env   // step clauses: old(E) is E evaluated in this environment (head of the iteration)
 }
 
@@ -159,9 +161,16 @@ func (fc *FnCtx) calleeEnv(con *Contract, fn *ssa.Function, sig *types.Signature
 				}
 			}
 		}
-		for i, fv := range fn.FreeVars {
-			_ = i
-			_ = fv
+		// a closure called where its bindings are known: its contract may name the captured variables
+		if cl := fc.curClosure; cl != nil && cl.Fn == fn {
+			env.freeBind = map[string]Val{}
+			env.freeType = map[string]types.Type{}
+			for i, fv := range fn.FreeVars {
+				if i < len(cl.Bindings) {
+					env.freeBind[fv.Name()] = cl.Bindings[i]
+					env.freeType[fv.Name()] = fv.Type()
+				}
+			}
 		}
 	} else {
 		// interface method or func type: receiver is "recv", parameters by signature names or argN
@@ -386,6 +395,28 @@ func (fc *FnCtx) transIdent(env *Env, name string) (Val, types.Type) {
 		}
 		if v, ok := env.vars["$param$"+name]; ok {
 			return v.v, v.t
+		}
+	}
+	// captured variables of a closure called at a site where its bindings are known
+	if b, ok := env.freeBind[name]; ok {
+		pt := env.freeType[name]
+		et := pt.(*types.Pointer).Elem()
+		st := env.st
+		if env.cst != nil {
+			st = env.st
+		}
+		switch x := b.(type) {
+		case *Addr:
+			if _, isS := isStructType(et); isS && x.Kind == aHeap && x.Key == "OBJ" {
+				return x.Ref, pt
+			}
+			return fc.load(x, st), et
+		case *Term:
+			if _, isS := isStructType(et); isS {
+				return x, pt
+			}
+			a := &Addr{Kind: aHeap, Ref: x, Key: fc.cellKey(et), RootType: et, Type: et}
+			return fc.loadRoot(a, st), et
 		}
 	}
 	// captured variables of a closure under verification (by name; current contents of the cell)
